@@ -114,6 +114,13 @@ def elemSet (h : Heap) (e : Nat) (v : Int) : Heap × Bool :=
   | some l => if (h.hdr l).root = some e then (h, false) else (h.setNode e { h.node e with ok := true, item := v }, true)
   | none => (h.setNode e { h.node e with ok := true, item := v }, true)
 
+/-- `e.In(l)` with the receiver as a possibly-nil handle: `e != nil && e.list != nil && e.list == l`
+    (documented: "Returns false when the element is nil") -/
+def elemIn (h : Heap) (e : Option Nat) (l : Nat) : Bool :=
+  match e with
+  | none => false
+  | some a => (h.node a).list.isSome && (h.node a).list == some l
+
 /-- `Element.Swap` exactly as written: `wprev := *with.prev` is a fresh copy of the struct -/
 def elemSwap (h : Heap) (e : Nat) (w : Option Nat) : Option (Heap × Bool) :=
   match w with
